@@ -9,11 +9,18 @@
    were repaired ("fix:" commits): with SetErrShadowed = TRUE a failed Set is only logged and the
    commit goes ahead (TLC then finds AckAfterDurable violated); with BeginFailSilent = TRUE a
    failed NewTransaction returns without running callbacks (TLC then finds the flush never
-   completes: WaitPendingWrites blocks forever).                                                *)
+   completes: WaitPendingWrites blocks forever).
+
+   ErrsGuarded names a behaviour the code still has (DESIGN.md, observation O1): onPersistFlushed reports a
+   failed flush with a plain send on the connector's error channel.  The node reads that channel only while
+   its run loop is alive (the v2 engine never reads it); with ErrsGuarded = FALSE - the code - a failed flush
+   whose error nobody reads blocks the callback goroutine for good, and TLC refutes CallbacksReturn (what
+   WaitPendingWrites / Persister.Wait wait for).  ErrsGuarded = TRUE is the send that gives up when nobody
+   listens.                                                                                        *)
 EXTENDS Naturals, Sequences, FiniteSets, SequencesExt, TLC
 
 CONSTANTS Conn, MaxAcks, Threshold, MaxSendFails, AllowStoreFaults, SetErrShadowed, BeginFailSilent,
-          AllowTeardown
+          AllowTeardown, ErrsGuarded, AllowNodeExit
 
 VARIABLES
   acked,     \* [c -> number of engine acks so far]; positions are 1..acked[c], in read order
@@ -28,8 +35,9 @@ VARIABLES
   td,        \* [c -> teardown pc]: "run" | "flush" | "closed" | "cancelled" | "done"
   failed,    \* [c -> BOOLEAN]         an error reached the connector's error channel
   sendFails, \* transient send failures still to inject
-  lostCb     \* a flush ended without running its callbacks (only with BeginFailSilent)
-vars == <<acked, pend, batch, bundle, fl, cbs, store, dq, delivered, td, failed, sendFails, lostCb>>
+  lostCb,    \* a flush ended without running its callbacks (only with BeginFailSilent)
+  reading    \* [c -> BOOLEAN]  the connector's node is reading its error channel (its run loop is alive)
+vars == <<acked, pend, batch, bundle, fl, cbs, store, dq, delivered, td, failed, sendFails, lostCb, reading>>
 
 Idle == [phase |-> "idle", b |-> [c \in Conn |-> 0], err |-> FALSE, todo |-> {}, bad |-> {}]
 
@@ -39,6 +47,7 @@ Init ==
   /\ store = [c \in Conn |-> 0] /\ dq = [c \in Conn |-> <<>>]
   /\ delivered = [c \in Conn |-> <<>>] /\ td = [c \in Conn |-> "run"]
   /\ failed = [c \in Conn |-> FALSE] /\ sendFails = MaxSendFails /\ lostCb = FALSE
+  /\ reading = [c \in Conn |-> TRUE]
 
 BatchEmpty == \A c \in Conn : batch[c] = 0
 
@@ -51,25 +60,25 @@ EngineAck(c) ==
   /\ pend' = [pend EXCEPT ![c] = Append(@, acked[c] + 1)]
   /\ batch' = [batch EXCEPT ![c] = acked[c] + 1]
   /\ bundle' = bundle + 1
-  /\ UNCHANGED <<fl, cbs, store, dq, delivered, td, failed, sendFails, lostCb>>
+  /\ UNCHANGED <<fl, cbs, store, dq, delivered, td, failed, sendFails, lostCb, reading>>
 
 (* triggerFlush: bundle threshold reached, the debounce timer fired, or a forced flush *)
 StartFlush ==
   /\ fl.phase = "idle" /\ ~BatchEmpty
   /\ fl' = [phase |-> "begin", b |-> batch, err |-> FALSE, todo |-> {c \in Conn : batch[c] # 0}, bad |-> {}]
   /\ batch' = [c \in Conn |-> 0] /\ bundle' = 0
-  /\ UNCHANGED <<acked, pend, cbs, store, dq, delivered, td, failed, sendFails, lostCb>>
+  /\ UNCHANGED <<acked, pend, cbs, store, dq, delivered, td, failed, sendFails, lostCb, reading>>
 
 SpawnCallbacks(err) == {[c |-> c, pos |-> fl.b[c], err |-> err] : c \in {x \in Conn : fl.b[x] # 0}}
 
 TxBegin(ok) ==
   /\ fl.phase = "begin"
-  /\ IF ok THEN fl' = [fl EXCEPT !.phase = "set"] /\ UNCHANGED <<cbs, lostCb>>
+  /\ IF ok THEN fl' = [fl EXCEPT !.phase = "set"] /\ UNCHANGED <<cbs, lostCb, reading>>
      ELSE /\ AllowStoreFaults
           /\ IF BeginFailSilent
                THEN fl' = Idle /\ lostCb' = TRUE /\ UNCHANGED cbs
                ELSE fl' = Idle /\ cbs' = cbs \cup SpawnCallbacks(TRUE) /\ UNCHANGED lostCb
-  /\ UNCHANGED <<acked, pend, batch, bundle, store, dq, delivered, td, failed, sendFails>>
+  /\ UNCHANGED <<acked, pend, batch, bundle, store, dq, delivered, td, failed, sendFails, reading>>
 
 SetStep(c, ok) ==
   /\ fl.phase = "set" /\ c \in fl.todo
@@ -78,7 +87,7 @@ SetStep(c, ok) ==
                       !.bad = IF ok THEN @ ELSE @ \cup {c},
                       !.err = IF ok \/ SetErrShadowed THEN @ ELSE TRUE,
                       !.phase = IF fl.todo = {c} THEN "commit" ELSE "set"]
-  /\ UNCHANGED <<acked, pend, batch, bundle, cbs, store, dq, delivered, td, failed, sendFails, lostCb>>
+  /\ UNCHANGED <<acked, pend, batch, bundle, cbs, store, dq, delivered, td, failed, sendFails, lostCb, reading>>
 
 (* Commit (skipped - the transaction is discarded - when a Set failed and the error is not
    shadowed); then one callback goroutine per connector of the batch *)
@@ -91,55 +100,65 @@ Commit(ok) ==
                    ELSE store
      /\ cbs' = cbs \cup SpawnCallbacks(~success)
   /\ fl' = Idle
-  /\ UNCHANGED <<acked, pend, batch, bundle, dq, delivered, td, failed, sendFails, lostCb>>
+  /\ UNCHANGED <<acked, pend, batch, bundle, dq, delivered, td, failed, sendFails, lostCb, reading>>
 
 (* onPersistFlushed, run by one goroutine per connector of the flushed batch, in any order *)
 Callback(cb) ==
   /\ cb \in cbs
+  \* a failed flush is reported on the error channel: the send completes only if the node is reading it - or,
+  \* with ErrsGuarded, is abandoned when nobody is
+  /\ (cb.err => (reading[cb.c] \/ ErrsGuarded))
   /\ cbs' = cbs \ {cb}
   /\ IF cb.err
-       THEN failed' = [failed EXCEPT ![cb.c] = TRUE] /\ UNCHANGED <<pend, dq>>
+       THEN failed' = [failed EXCEPT ![cb.c] = reading[cb.c] \/ @] /\ UNCHANGED <<pend, dq>>
        ELSE LET c == cb.c
                 due == SelectSeq(pend[c], LAMBDA p : p <= cb.pos)
                 rest == SelectSeq(pend[c], LAMBDA p : p > cb.pos) IN
             /\ pend' = [pend EXCEPT ![c] = rest]
             /\ dq' = [dq EXCEPT ![c] = IF td[c] \in {"run", "flush"} THEN @ \o due ELSE @]
             /\ UNCHANGED failed
-  /\ UNCHANGED <<acked, batch, bundle, fl, store, delivered, td, sendFails, lostCb>>
+  /\ UNCHANGED <<acked, batch, bundle, fl, store, delivered, td, sendFails, lostCb, reading>>
 
 (* the delivery goroutine: one queue entry at a time, transient failures are retried *)
 Deliver(c) ==
   /\ dq[c] # <<>> /\ td[c] \in {"run", "flush", "closed"}
   /\ delivered' = [delivered EXCEPT ![c] = Append(@, Head(dq[c]))]
   /\ dq' = [dq EXCEPT ![c] = Tail(@)]
-  /\ UNCHANGED <<acked, pend, batch, bundle, fl, cbs, store, td, failed, sendFails, lostCb>>
+  /\ UNCHANGED <<acked, pend, batch, bundle, fl, cbs, store, td, failed, sendFails, lostCb, reading>>
 
 SendFail(c) ==
   /\ dq[c] # <<>> /\ td[c] \in {"run", "flush", "closed"} /\ sendFails > 0
   /\ sendFails' = sendFails - 1
-  /\ UNCHANGED <<acked, pend, batch, bundle, fl, cbs, store, dq, delivered, td, failed, lostCb>>
+  /\ UNCHANGED <<acked, pend, batch, bundle, fl, cbs, store, dq, delivered, td, failed, lostCb, reading>>
 
 (* Source.Teardown: force a flush and wait for it (bounded), close the deferred queue, drain it
    (bounded), cancel the stream, tear the plugin down *)
 TdBegin(c) ==
   /\ AllowTeardown /\ td[c] = "run"
   /\ td' = [td EXCEPT ![c] = "flush"]
-  /\ UNCHANGED <<acked, pend, batch, bundle, fl, cbs, store, dq, delivered, failed, sendFails, lostCb>>
+  /\ UNCHANGED <<acked, pend, batch, bundle, fl, cbs, store, dq, delivered, failed, sendFails, lostCb, reading>>
 
 \* the wait for the final flush ended (completed, or its 10 s budget expired): close the queue
 TdClose(c) ==
   /\ td[c] = "flush"
   /\ td' = [td EXCEPT ![c] = "closed"]
-  /\ UNCHANGED <<acked, pend, batch, bundle, fl, cbs, store, dq, delivered, failed, sendFails, lostCb>>
+  /\ UNCHANGED <<acked, pend, batch, bundle, fl, cbs, store, dq, delivered, failed, sendFails, lostCb, reading>>
 
 \* the drain ended (queue empty, or budget expired): cancel the stream - undelivered entries are dropped
 TdCancel(c) ==
   /\ td[c] = "closed"
   /\ td' = [td EXCEPT ![c] = "done"]
   /\ dq' = [dq EXCEPT ![c] = <<>>]
-  /\ UNCHANGED <<acked, pend, batch, bundle, fl, cbs, store, delivered, failed, sendFails, lostCb>>
+  /\ UNCHANGED <<acked, pend, batch, bundle, fl, cbs, store, delivered, failed, sendFails, lostCb, reading>>
+
+\* the node's run loop ends (the pipeline is going down for another reason; in the v2 engine nobody reads at all)
+NodeExit(c) ==
+  /\ AllowNodeExit /\ reading[c]
+  /\ reading' = [reading EXCEPT ![c] = FALSE]
+  /\ UNCHANGED <<acked, pend, batch, bundle, fl, cbs, store, dq, delivered, td, failed, sendFails, lostCb>>
 
 Next ==
+  \/ \E c \in Conn : NodeExit(c)
   \/ \E c \in Conn : EngineAck(c) \/ Deliver(c) \/ SendFail(c) \/ TdBegin(c) \/ TdClose(c) \/ TdCancel(c)
   \/ StartFlush
   \/ \E ok \in BOOLEAN : TxBegin(ok) \/ Commit(ok)
@@ -162,4 +181,6 @@ NoLostCallback == ~lostCb
 \* with a store that responds and no teardown, every engine ack reaches the plugin
 AllDelivered == \A c \in Conn : Len(delivered[c]) = MaxAcks
 EventuallyDelivered == <>(AllDelivered \/ \E c \in Conn : failed[c])
+\* every callback a flush spawned returns (WaitPendingWrites / Persister.Wait return)
+CallbacksReturn == []<>(cbs = {})
 =============================================================================
